@@ -16,6 +16,7 @@ fn main() {
         ("c11", "record") => yv::c11::record(&args),
         ("c09", "record") => yv::c09::record(&args),
         ("c10", "record") => yv::c10::record(&args),
+        ("c10", "steps") => yv::c10::steps(&args),
         ("c07", "record") => yv::c07::record(&args),
         ("c08", "record") => yv::c08::record(&args),
         ("c20", "record") => yv::c20::record(&args),
